@@ -433,6 +433,9 @@ func init() {
 			ret(st, f, nil)
 		},
 		"vTier": func(st *State, f *Frame, c *ssa.Call, a []Value) { ret(st, f, C(64, uint64(TierN))) },
+		"vGCCheck": func(st *State, f *Frame, c *ssa.Call, a []Value) { st.gcCheck = true; ret(st, f, nil) },
+		"vTrack":   func(st *State, f *Frame, c *ssa.Call, a []Value) { ret(st, f, nil) },
+		"vCollected": func(st *State, f *Frame, c *ssa.Call, a []Value) { ret(st, f, B(false)) },
 		"vEngine": func(st *State, f *Frame, c *ssa.Call, a []Value) { ret(st, f, B(true)) },
 		"vFootprintStart": func(st *State, f *Frame, c *ssa.Call, a []Value) {
 			st.fp = &Footprint{Reads: map[int]bool{}, Writes: map[int]bool{}}
